@@ -44,8 +44,15 @@ def unescape : Bytes → Bytes
 def escapeString (s : Bytes) : Bytes := escape validString s
 def quote (s : Bytes) : Bytes := 34 :: (escapeString s ++ [34])
 
+/-- `allDigits`: non-empty, decimal digits only -/
+def allDigits (s : Bytes) : Bool := !s.isEmpty && s.all isDigit
+
+/-- starts with a digit but is not a number: not a valid bare identifier -/
+def digitLedJunk (s : Bytes) : Bool :=
+  (match s with | b :: _ => isDigit b | [] => false) && !allDigits s
+
 def escapeIdent (s : Bytes) : Bytes :=
-  if s.all inTail then s else 34 :: (escape inQuotedIdent s ++ [34])
+  if s.all inTail && !digitLedJunk s then s else 34 :: (escape inQuotedIdent s ++ [34])
 
 /-- result of a Go call that may panic -/
 inductive Res (α : Type) where
@@ -82,7 +89,8 @@ def labelName (name : Bytes) : Bytes :=
   | none => escapeIdent name ++ [58]
 
 def typeName (name : Bytes) : Bytes := 37 :: escapeIdent name
-def comdatName (name : Bytes) : Bytes := 36 :: escapeIdent name
+def comdatName (name : Bytes) : Bytes :=
+  if allDigits name then 36 :: 34 :: (name ++ [34]) else 36 :: escapeIdent name
 
 /-- enc.MetadataName; panics (index out of range) on the empty name -/
 def metadataName (name : Bytes) : Res Bytes :=
@@ -106,8 +114,8 @@ inductive Ident where
 
 /-- shared tail of asm.globalIdent / localIdent / labelIdent after stripping the sigil -/
 def decodeIdentBody (ident : Bytes) : Ident :=
-  match parseInt64 ident with
-  | some id => if id ≥ 0 then .id id else .name (asmUnquote ident)
+  match parseUint63 ident with
+  | some id => .id (Int.ofNat id)
   | none => .name (asmUnquote ident)
 
 def globalIdent (tok : Bytes) : Res Ident :=
